@@ -1,1 +1,405 @@
-/-! C19 — property theorems (none yet). -/
+import Req.Client.Scope
+import Req.Client.Heap
+import Req.Lemmas.C19Scope
+import Req.Lemmas.C19Heap
+/-!
+# C19 — settings are scoped correctly and cloned clients are independent
+
+Property (properties.jsonl C19): request-level settings override client-level settings for that
+request only and leave no trace on the client or on other requests; client-level settings apply
+to every later request of that client; a cloned client initially behaves identically to the
+original, and thereafter a change to either has no effect on the other.
+
+Theorems on the value model `Scope` (all for arbitrary states, setters, programs):
+* `request_scope_setter`, `request_scope_exec`, `request_header_overrides`, `request_path_param_overrides`
+* `client_scope`
+* `clone_same_settings`, `clone_same_behaviour`
+* `clone_isolated` (any record that a program does not address — original, clone, clone of a
+  clone — is unchanged, and so is everything it emits), `isolated_emit`
+Refinement of the reference-aware model `Heap` (maps / pointers as shared boxes, slices with
+length and capacity):
+* `heap_refines_scope : Safe tc tr → ∀ grow ops, abs (runHeap …) = runScope …` (state and observations)
+* `alias_counterexample`, `alias_clobbers_original` — with a wrapper slice copied by assignment
+  the refinement fails on the sequence of DESIGN.md section 5 row 18 (`decide`).
+-/
+namespace Req.Props.C19
+open Req.Scope Req.Heap
+
+/-! ## Request scope -/
+
+/-- A setter changes the record it is called on and no other: a request-level setter leaves no
+trace on the client, on other requests, or on other clients (and a client-level setter none on
+other clients or on existing requests). -/
+theorem request_scope_setter (tc tr : Table) (s : VState) (r : Nat) (st : Setter) (b : Nat)
+    (hb : b < s.count) (hne : b ≠ r) : (stepOp tc tr s (.set r st)).owner b = s.owner b := by
+  unfold stepOp
+  have hobs : observe s (.set r st) ≠ .err := by simp [observe]
+  simp only [hobs, if_false, compile]
+  apply runV_frame b _ s hb
+  intro p hp
+  have := setter_targets r st
+  rw [List.all_eq_true] at this
+  have hp' := this p hp
+  simp only [Bool.and_eq_true, Bool.not_eq_true', beq_iff_eq] at hp'
+  refine ⟨hp'.1, ?_⟩
+  rw [hp'.2]
+  intro h
+  injection h with h
+  exact hne h.symm
+
+/-- Executing a request leaves no trace: no record changes, except that a cookie the origin sets
+lands in the jar of the request's client. -/
+theorem request_scope_exec (tc tr : Table) (s : VState) (r m md : Nat) (path : List Seg) (sc : Nat) (b : Nat) (f : Field)
+    (hf : f ≠ F.jar ∨ sc = 0 ∨ (s.owner r).parent ≠ some b) :
+    ((stepOp tc tr s (.exec r m md path sc)).owner b).val f = (s.owner b).val f := by
+  unfold stepOp
+  split
+  · rfl
+  · simp only [compile]
+    by_cases hsc : sc = 0
+    · simp [hsc, runV]
+    · simp only [hsc, if_false, runV, List.foldl_cons, List.foldl_nil, stepV]
+      split
+      · split
+        · rename_i c hc
+          by_cases hcb : c = b
+          · subst hcb
+            unfold VState.updOwner
+            split
+            · simp only [if_true, VOwner.setVal]
+              have hfj : f ≠ F.jar := by
+                rcases hf with h | h | h
+                · exact h
+                · exact absurd h hsc
+                · exact absurd hc h
+              simp [hfj]
+            · rfl
+          · rw [updOwner_other _ _ _ _ hcb]
+        · rfl
+      · rfl
+
+/-- Request-level header values win over the client's for that key … -/
+theorem request_header_overrides (clientHdr reqHdr : AMap) (k : Nat) (h : (reqHdr.get k).isEmpty = false) :
+    (mergeHeaders clientHdr reqHdr).get k = reqHdr.get k :=
+  mergeHeaders_keeps k clientHdr reqHdr h
+
+/-- … and a request-level path parameter wins over the client's. -/
+theorem request_path_param_overrides (clientPP reqPP : AMap) (k v : Nat) (rest : List Nat)
+    (h : reqPP.get k = v :: rest) : resolveSeg clientPP reqPP (.param k) = .val v := by
+  simp [resolveSeg, h]
+
+/-! ## Client scope -/
+
+/-- A client-level header set with `SetCommonHeader` is what EVERY request of that client is
+sent with from then on — requests that exist already and requests created later alike (the
+merge reads the client record at execution time) — unless the request has its own values for
+the key; requests, and every other client, are untouched by the setter. -/
+theorem client_scope (tc tr : Table) (s : VState) (c k v : Nat) (hc : c < s.count) :
+    let s' := stepOp tc tr s (.set c (.hdrSet k v))
+    (∀ rq : VOwner, ((rq.val F.headers).get k).isEmpty = true →
+      (mergeHeaders ((s'.owner c).val F.headers) (rq.val F.headers)).get k = [v]) ∧
+    (∀ b, b < s.count → b ≠ c → s'.owner b = s.owner b) := by
+  intro s'
+  refine ⟨?_, fun b hb hne => request_scope_setter tc tr s c (.hdrSet k v) b hb hne⟩
+  intro rq hrq
+  have hs' : (s'.owner c).val F.headers = ((s.owner c).val F.headers).set k [v] := by
+    show ((stepOp tc tr s (.set c (.hdrSet k v))).owner c).val F.headers = _
+    unfold stepOp
+    have hobs : observe s (.set c (.hdrSet k v)) ≠ .err := by simp [observe]
+    have hk : kind F.headers = .box := by decide
+    simp only [hobs, if_false, compile, Setter.prims, runV, List.foldl_cons, List.foldl_nil, stepV, hk, if_true]
+    rw [updOwner_self _ _ _ hc]
+    simp [VOwner.setVal]
+  rw [hs']
+  have := mergeHeaders_client k (((s.owner c).val F.headers).set k [v]) (rq.val F.headers) hrq
+    (by rw [get_set_same]; rfl)
+  rw [this, get_set_same]
+
+/-! ## Clone -/
+
+/-- The record `Clone` creates (ideal table): every settings field of the original, the closure
+chains rebuilt from the wrapper slices, a new jar from the factory. -/
+theorem clone_same_settings (s : VState) (i : Nat) (hi : i < s.count) :
+    let s' := stepOp idealClone idealReq s (.clone i)
+    s'.count = s.count + 1 ∧
+    (s'.owner s.count).parent = none ∧
+    (∀ f, f ≠ F.jar → f ≠ F.wrapChain → f ≠ F.tWrapChain → (s'.owner s.count).val f = (s.owner i).val f) ∧
+    (s'.owner s.count).val F.wrapChain = (s.owner i).val F.wrappers ∧
+    (s'.owner s.count).val F.tWrapChain = (s.owner i).val F.tWrappers ∧
+    (s'.owner s.count).val F.jar = (s.owner i).val F.jarFactory ∧
+    (∀ b, b < s.count → s'.owner b = s.owner b) := by
+  intro s'
+  have hobs : observe s (.clone i) ≠ .err := by simp [observe]
+  have hs' : s' = stepV (stepV (stepV (stepV s (.derive i idealClone false))
+      (.copyFrom s.count F.wrapChain F.wrappers)) (.copyFrom s.count F.tWrapChain F.tWrappers))
+      (.copyFrom s.count F.jar F.jarFactory) := by
+    show stepOp idealClone idealReq s (.clone i) = _
+    simp [stepOp, hobs, compile, hi, runV]
+  obtain ⟨hc1, ho1⟩ := derive_new s i hi idealClone false
+  generalize stepV s (.derive i idealClone false) = s1 at hs' hc1 ho1
+  have hn1 : s.count < s1.count := by omega
+  have hc2 := copyFrom_count s1 s.count F.wrapChain F.wrappers
+  have hv2 := copyFrom_val s1 s.count hn1 F.wrapChain F.wrappers
+  have hp2 := copyFrom_parent s1 s.count hn1 F.wrapChain F.wrappers
+  generalize stepV s1 (.copyFrom s.count F.wrapChain F.wrappers) = s2 at hs' hc2 hv2 hp2
+  have hn2 : s.count < s2.count := by omega
+  have hc3 := copyFrom_count s2 s.count F.tWrapChain F.tWrappers
+  have hv3 := copyFrom_val s2 s.count hn2 F.tWrapChain F.tWrappers
+  have hp3 := copyFrom_parent s2 s.count hn2 F.tWrapChain F.tWrappers
+  generalize stepV s2 (.copyFrom s.count F.tWrapChain F.tWrappers) = s3 at hs' hc3 hv3 hp3
+  have hn3 : s.count < s3.count := by omega
+  have hc4 := copyFrom_count s3 s.count F.jar F.jarFactory
+  have hv4 := copyFrom_val s3 s.count hn3 F.jar F.jarFactory
+  have hp4 := copyFrom_parent s3 s.count hn3 F.jar F.jarFactory
+  rw [← hs'] at hc4 hv4 hp4
+  have hd : ∀ f, idealClone f = .fresh → (s1.owner s.count).val f = (s.owner i).val f := by
+    intro f hf; rw [ho1]; simp [deriveVal, hf]
+  refine ⟨by omega, ?_, ?_, ?_, ?_, ?_, ?_⟩
+  · rw [hp4, hp3, hp2, ho1]; rfl
+  · intro f h1 h2 h3
+    rw [hv4, if_neg h1, hv3, if_neg h3, hv2, if_neg h2]
+    exact hd f (by simp [idealClone, h1])
+  · rw [hv4, if_neg (by decide), hv3, if_neg (by decide), hv2, if_pos rfl]
+    rw [hd F.wrappers (by decide)]
+    have : kind F.wrapChain = .box := by decide
+    rw [this]; rfl
+  · rw [hv4, if_neg (by decide), hv3, if_pos rfl, hv2, if_neg (by decide)]
+    rw [hd F.tWrappers (by decide)]
+    have : kind F.tWrapChain = .box := by decide
+    rw [this]; rfl
+  · rw [hv4, if_pos rfl, hv3, if_neg (by decide), hv2, if_neg (by decide)]
+    rw [hd F.jarFactory (by decide)]
+    have : kind F.jar = .box := by decide
+    rw [this]; rfl
+  · intro b hb
+    have hs'' : s' = runV s [.derive i idealClone false, .copyFrom s.count F.wrapChain F.wrappers,
+        .copyFrom s.count F.tWrapChain F.tWrappers, .copyFrom s.count F.jar F.jarFactory] := by
+      show stepOp idealClone idealReq s (.clone i) = _
+      simp [stepOp, hobs, compile, hi]
+    rw [hs'']
+    apply runV_frame b _ s hb
+    intro p hp
+    simp at hp
+    rcases hp with rfl | rfl | rfl | rfl <;> simp [isJarStore, staticTarget, Nat.ne_of_gt hb]
+
+/-- A cloned client initially behaves identically: for every request record the origin receives
+the same request from the clone as from the original (the jar being what the factory gives, as
+it is for the original while no response has stored a cookie). -/
+theorem clone_same_behaviour (s : VState) (i : Nat) (hi : i < s.count) (rq : VOwner) (m md : Nat) (path : List Seg)
+    (hjar : (s.owner i).val F.jar = (s.owner i).val F.jarFactory) :
+    emit ((stepOp idealClone idealReq s (.clone i)).owner s.count) rq m md path = emit (s.owner i) rq m md path := by
+  obtain ⟨_, _, hsame, _, _, hj, _⟩ := clone_same_settings s i hi
+  unfold emit
+  rw [hsame F.baseURL (by decide) (by decide) (by decide), hsame F.scheme (by decide) (by decide) (by decide),
+    hsame F.headers (by decide) (by decide) (by decide), hsame F.allowGetPayload (by decide) (by decide) (by decide),
+    hsame F.form (by decide) (by decide) (by decide), hsame F.pathParams (by decide) (by decide) (by decide),
+    hsame F.query (by decide) (by decide) (by decide), hsame F.cookies (by decide) (by decide) (by decide),
+    hsame F.disableKeepAlives (by decide) (by decide) (by decide),
+    hsame F.disableCompression (by decide) (by decide) (by decide), hj, ← hjar]
+
+/-- The middleware, wrappers and retry options a request of the clone runs with are those a
+request of the original runs with (the original's closure chains being its wrapper slices, as
+they are after any sequence of `WrapRoundTrip` calls). -/
+theorem clone_same_middleware (s : VState) (i : Nat) (hi : i < s.count) (rq : VOwner)
+    (hw : (s.owner i).val F.wrapChain = (s.owner i).val F.wrappers)
+    (htw : (s.owner i).val F.tWrapChain = (s.owner i).val F.tWrappers) :
+    execCtx ((stepOp idealClone idealReq s (.clone i)).owner s.count) rq = execCtx (s.owner i) rq := by
+  obtain ⟨_, _, hsame, hcw, hct, _, _⟩ := clone_same_settings s i hi
+  unfold execCtx
+  rw [hsame F.udBefore (by decide) (by decide) (by decide), hsame F.after (by decide) (by decide) (by decide),
+    hcw, hct, ← hw, ← htw]
+
+/-! ## Isolation -/
+
+/-- `op` may change record `b`: a setter called on it, or an execution of one of its requests
+whose response stores a cookie in its jar. (`Clone` and `R()` only read their source.) -/
+def Touches (s : VState) (op : Op) (b : Nat) : Prop :=
+  match op with
+  | .set o _ => o = b
+  | .exec r _ _ _ sc => sc ≠ 0 ∧ (s.owner r).parent = some b
+  | _ => False
+
+/-- no op of the program touches `b` -/
+def Untouched (tc tr : Table) (b : Nat) : VState → List Op → Prop
+  | _, [] => True
+  | s, op :: ops => ¬ Touches s op b ∧ Untouched tc tr b (stepOp tc tr s op) ops
+
+instance (s : VState) (op : Op) (b : Nat) : Decidable (Touches s op b) := by
+  unfold Touches
+  cases op <;> infer_instance
+
+instance decUntouched (tc tr : Table) (b : Nat) : ∀ (s : VState) (ops : List Op), Decidable (Untouched tc tr b s ops)
+  | _, [] => isTrue trivial
+  | s, op :: ops => by
+    unfold Untouched
+    exact @instDecidableAnd _ _ _ (decUntouched tc tr b _ ops)
+
+theorem stepOp_count_le (tc tr : Table) (s : VState) (op : Op) : s.count ≤ (stepOp tc tr s op).count := by
+  unfold stepOp
+  split
+  · exact Nat.le_refl _
+  · exact runV_count_le _ s
+
+theorem stepOp_frame (tc tr : Table) (s : VState) (op : Op) (b : Nat) (hb : b < s.count) (ht : ¬ Touches s op b) :
+    (stepOp tc tr s op).owner b = s.owner b := by
+  cases op with
+  | set o st =>
+    exact request_scope_setter tc tr s o st b hb (fun h => ht h.symm)
+  | exec r m md path sc =>
+    unfold stepOp
+    split
+    · rfl
+    · simp only [compile]
+      by_cases hsc : sc = 0
+      · simp [hsc, runV]
+      · simp only [hsc, if_false, runV, List.foldl_cons, List.foldl_nil]
+        apply stepV_frame s _ b hb
+        simp only [primTarget]
+        split
+        · intro h; exact ht ⟨hsc, h⟩
+        · simp
+  | newClient =>
+    unfold stepOp
+    split
+    · rfl
+    · apply runV_frame b _ s hb
+      intro p hp
+      simp [compile] at hp
+      rcases hp with rfl | rfl <;> simp [isJarStore, staticTarget, Nat.ne_of_gt hb]
+  | clone i =>
+    unfold stepOp
+    split
+    · rfl
+    · apply runV_frame b _ s hb
+      intro p hp
+      simp only [compile] at hp
+      split at hp
+      · simp at hp
+        rcases hp with rfl | rfl | rfl | rfl <;> simp [isJarStore, staticTarget, Nat.ne_of_gt hb]
+      · simp at hp
+  | newReq i =>
+    unfold stepOp
+    split
+    · rfl
+    · apply runV_frame b _ s hb
+      intro p hp
+      simp only [compile] at hp
+      split at hp
+      · simp at hp
+        rcases hp with rfl | rfl | rfl | rfl | rfl <;> simp [isJarStore, staticTarget, Nat.ne_of_gt hb]
+      · simp at hp
+  | getCookies c => simp [stepOp, compile, runV]
+  | probe o => simp [stepOp, compile, runV]
+
+/-- **Clone isolation.** Whatever a program does — setters of every group, requests, executions,
+further clones, on any records other than `b` — record `b` is unchanged. `b` may be an original
+whose clones are being changed, a clone whose original is being changed, a clone of a clone. -/
+theorem clone_isolated (tc tr : Table) (b : Nat) : ∀ (ops : List Op) (s : VState), b < s.count →
+    Untouched tc tr b s ops → (runWith tc tr s ops).1.owner b = s.owner b := by
+  intro ops
+  induction ops with
+  | nil => intro s _ _; rfl
+  | cons op ops ih =>
+    intro s hb hu
+    simp only [runWith]
+    have h1 := stepOp_frame tc tr s op b hb hu.1
+    have h2 := ih (stepOp tc tr s op) (Nat.lt_of_lt_of_le hb (stepOp_count_le tc tr s op)) hu.2
+    rw [h2, h1]
+
+/-- Consequently everything client `b` emits afterwards is what it would have emitted before:
+for every request record, method, URL. -/
+theorem isolated_emit (tc tr : Table) (b : Nat) (ops : List Op) (s : VState) (hb : b < s.count)
+    (hu : Untouched tc tr b s ops) (rq : VOwner) (m md : Nat) (path : List Seg) :
+    emit ((runWith tc tr s ops).1.owner b) rq m md path = emit (s.owner b) rq m md path ∧
+    execCtx ((runWith tc tr s ops).1.owner b) rq = execCtx (s.owner b) rq := by
+  rw [clone_isolated tc tr b ops s hb hu]
+  exact ⟨rfl, rfl⟩
+
+/-! ## The reference-aware model refines the value model -/
+
+/-- **Refinement.** When `Clone` and `R()` share no reference with the record they copy and carry
+what they should (`Safe`), the reference-aware model — in-place map inserts, writes through
+pointers, `append` into spare capacity, for EVERY slice growth policy — denotes exactly the
+value model: same final settings of every record, same observations. -/
+theorem heap_refines_scope (tc tr : Table) (hs : Safe tc tr) (grow : Nat → Nat → Nat) (ops : List Op) :
+    abs (runHeap grow tc tr ops).1 = (runScope ops).1 ∧ (runHeap grow tc tr ops).2 = (runScope ops).2 := by
+  have h := runHeapFrom_refines grow tc tr hs.cloneAlias hs.reqAlias ops Heap.empty inv_empty
+  have habs : abs Heap.empty = VState.empty := rfl
+  rw [habs] at h
+  have hc := runWith_congr tc tr idealClone idealReq hs.cloneCarries hs.reqCarries ops VState.empty
+  unfold runHeap runScope
+  rw [← hc]
+  exact ⟨h.2.1, h.2.2⟩
+
+/-- `Safe` from the Boolean checks (what `Bridge/C19.lean` decides for the regenerated table). -/
+theorem safe_of_checks (tc tr : Table) (h1 : aliasSafeB tc = true) (h2 : aliasSafeB tr = true)
+    (h3 : carriesLikeB idealClone tc = true) (h4 : carriesLikeB idealReq tr = true) : Safe tc tr := by
+  have alias : ∀ t, aliasSafeB t = true → AliasSafe t := by
+    intro t ht f
+    unfold aliasSafeB at ht
+    rw [List.all_eq_true] at ht
+    have := ht f.val (by simp [f.isLt])
+    simp only [f.isLt, dif_pos] at this
+    simpa using this
+  have carries : ∀ ideal t, carriesLikeB ideal t = true → CarriesLike ideal t := by
+    intro ideal t ht f
+    unfold carriesLikeB at ht
+    rw [List.all_eq_true] at ht
+    have := ht f.val (by simp [f.isLt])
+    simp only [f.isLt, dif_pos] at this
+    cases h1 : t f <;> cases h2 : ideal f <;> simp [h1, h2] at this ⊢
+  exact ⟨alias tc h1, alias tr h2, carries _ tc h3, carries _ tr h4⟩
+
+/-! ## Without `Safe` the refinement fails: the append-aliasing witness -/
+
+/-- DESIGN.md section 5 row 18: `c.Wrap(w1); c.Wrap(w2); c.Wrap(w3); cc := c.Clone(); c.Wrap(w4);
+cc.Wrap(w5); c.Clone()`. -/
+def witness : List Op :=
+  [.newClient, .set 0 (.wrap [1] false), .set 0 (.wrap [2] false), .set 0 (.wrap [3] false), .clone 0,
+   .set 0 (.wrap [4] false), .set 1 (.wrap [5] false), .clone 0]
+
+/-- With the wrapper slices copied by assignment (the `Clone` of the code before fixes/C19-1) and
+Go's slice growth, the second clone of the ORIGINAL runs wrapper 5 — which only the first clone
+ever added — where the value model (and the original itself) runs wrapper 4. -/
+theorem alias_counterexample :
+    ((abs (runHeap goGrow (aliasWrappers idealClone) idealReq witness).1).owner 2).val F.wrapChain = [(0, [1, 2, 3, 5])] ∧
+    ((runScope witness).1.owner 2).val F.wrapChain = [(0, [1, 2, 3, 4])] ∧
+    ((abs (runHeap goGrow (aliasWrappers idealClone) idealReq witness).1).owner 0).val F.wrapChain = [(0, [1, 2, 3, 4])] := by
+  decide
+
+/-- The same run, seen in the original's own settings: its recorded wrapper list was overwritten
+by a call on the clone. -/
+theorem alias_clobbers_original :
+    ((abs (runHeap goGrow (aliasWrappers idealClone) idealReq witness).1).owner 0).val F.wrappers = [(0, [1, 2, 3, 5])] := by
+  decide
+
+/-- With the slices cloned (`idealClone`) the same run agrees with the value model, as
+`heap_refines_scope` says it must. -/
+example : ((abs (runHeap goGrow idealClone idealReq witness).1).owner 2).val F.wrapChain = [(0, [1, 2, 3, 4])] := by
+  decide
+
+/-! ## Non-vacuity -/
+
+/-- the ideal tables are `Safe` (so `heap_refines_scope` has an instance) -/
+example : Safe idealClone idealReq := safe_of_checks _ _ (by decide) (by decide) (by decide) (by decide)
+
+/-- the aliasing table is not -/
+example : ¬ AliasSafe (aliasWrappers idealClone) := by
+  intro h
+  exact h F.wrappers (by decide)
+
+/-- `request_scope_setter`, `client_scope`, `clone_isolated` on a concrete state: client 0 with a
+header, its clone 1, a request 2 of the clone -/
+def demo : VState := (runScope [.newClient, .set 0 (.hdrSet 1 5), .clone 0, .newReq 1]).1
+
+example : demo.count = 3 ∧ (demo.owner 2).parent = some 1 ∧ ((demo.owner 1).val F.headers).get 1 = [5] := by decide
+
+example : Untouched idealClone idealReq 0 demo
+    [.set 1 (.hdrSet 1 6), .set 2 (.hdrSet 2 7), .exec 2 0 0 [] 11, .clone 1, .set 3 (.wrap [4] false)] := by
+  decide
+
+/-- request-level value wins, client-level value is used otherwise -/
+example : (mergeHeaders [(1, [5]), (2, [6])] [(1, [9])]).get 1 = [9] ∧
+    (mergeHeaders [(1, [5]), (2, [6])] [(1, [9])]).get 2 = [6] := by decide
+
+end Req.Props.C19
